@@ -2,6 +2,7 @@ import ObiVerif.Model.Uniq
 import ObiVerif.Model.UniqLoop
 import ObiVerif.Model.UniqChunk
 import ObiVerif.Model.UniqSteps
+import ObiVerif.Model.UniqGlue
 import ObiVerif.Driver.Util
 /-!
 line protocol for C06
@@ -35,6 +36,19 @@ next; exhausted schedule: round robin), result of the merge stage.
 `idem s=<k> <mem|disk> c= w= b= ns=0 na= cats= stats= dm=* <rec> …` → `U …` of `uniq (uniq xs ++ ys)` where `xs` = the first
 `k` records (an already dereplicated data set merged again with new records), ` NOT-IDEMPOTENT` appended when it differs
 from `uniq (xs ++ ys)`.
+
+`glue <mem|disk> cc=<chunk count|*> w=<workers> b=<batch size> ns=<0|1> na=<hex|*> m=<hex,…|-> c=<hex,…|-> p=<1|2> s=<k> <rec> …`
+→ `U …`: the command line of obiuniq (`-m` descriptors in command-line order, duplicates and the weighted form
+`KEY:WEIGHTATTR` allowed; `-c` categories; `*` = option not given) through `Model/UniqGlue.lean` `cliUnique`
+(option variables → `CLIUnique` setters → `MakeOptions` → `OptionStatOn` → kernel with descriptors); `p=2`: two passes,
+`cliUnique (cliUnique (first k records) ++ cliUnique (the others))`, ` REDEREP-DIFFERS` appended when (ns=0) it differs
+from the one-pass result.  The requested maps shown are those of the descriptor NAMES.
+
+`gattr <value>` → `count=<n> w=<n>,<0|1> after=<value>`: `Count()` of a record whose `count` attribute is the typed value,
+`GetIntAttribute` of it and the attribute afterwards; `<value>` = `-` (absent) | `i<n>` | `f<n>` (float64 = n) | `h<n>` (float64 = n + 0.5)
+| `s<hex>` | `bT` | `bF` | `m` (a map).  `gattr M<kind>`: a record whose `merged_x` attribute has an unexpected Go type, through
+`BioSequenceSlice.Merge` (`mss` map[string]string, `mfs` map[string]float64, `str` a string: the attribute is overwritten
+by fresh statistics; `mis` map[string]interface{} holding a string: `log.Panicf`).
 
 `big …`: large generated inputs, see `bigRun`.
 -/
@@ -152,6 +166,77 @@ def bigRun (ws : List String) : String :=
       pure s!"big classes={classes} total={total} max={mx}"
     | _ => none
   r.getD "bad-op"
+
+/-- `*` = option not given -/
+def optField (pre : String) (s : String) : Option (Option String) := do
+  let v ← field pre s
+  if v = "*" then pure none else pure (some v)
+
+def showVal : Option Val → String
+  | none => "-"
+  | some (.int n) => s!"i{n}"
+  | some (.flt _ _) => "f"
+  | some (.str _) => "s"
+  | some (.bool _) => "b"
+  | some .other => "m"
+
+def parseVal (s : String) : Option (Option Val) :=
+  if s = "-" then some none
+  else if s = "bT" then some (some (.bool true))
+  else if s = "bF" then some (some (.bool false))
+  else if s = "m" then some (some .other)
+  else match s.toList with
+    | 'i' :: t => (String.ofList t).toInt?.map fun n => some (.int n)
+    | 'f' :: t => (String.ofList t).toInt?.map fun n => some (.flt n true)
+    | 'h' :: t => (String.ofList t).toInt?.map fun n => some (.flt (if n ≥ 0 then n else n + 1) false)
+    | 's' :: t => (unhexS (String.ofList t)).map fun x => some (.str x)
+    | _ => none
+
+def glueRun (ws : List String) : Option String := do
+  match ws with
+  | mode :: cc :: w :: b :: ns :: na :: m :: c :: p :: sp :: recs =>
+    if mode ≠ "mem" ∧ mode ≠ "disk" then none
+    let cc ← optField "cc=" cc
+    let cc ← match cc with
+      | none => some (100 : Int)
+      | some x => x.toInt?
+    let wk ← (← field "w=" w).toNat?
+    let bs ← (← field "b=" b).toNat?
+    let ns ← (← field "ns=" ns).toNat?
+    let na ← optField "na=" na
+    let na ← match na with
+      | none => some "NA"
+      | some x => unhexS x
+    let merge ← listOf (← field "m=" m)
+    let cats ← listOf (← field "c=" c)
+    let p ← (← field "p=" p).toNat?
+    let sp ← (← field "s=" sp).toNat?
+    let input ← recs.mapM parseRec
+    if p ≠ 1 ∧ p ≠ 2 then none
+    let cli : Cli := { merge := merge, cats := cats, na := na, noSingleton := ns ≠ 0, inMemory := mode = "mem",
+                       chunkCount := cc, workers := wk, batchSize := bs }
+    let names := (cliOptions cli).statsOn.map (·.1)
+    let one := showRecs "U" names (cliUnique cli input)
+    if p = 1 then pure one
+    else
+      let two := showRecs "U" names
+        (cliUnique cli (cliUnique cli (input.take sp) ++ cliUnique cli (input.drop sp)))
+      pure (if ns ≠ 0 ∨ one = two then two else two ++ " REDEREP-DIFFERS")
+  | _ => none
+
+def gattrRun (ws : List String) : Option String := do
+  match ws with
+  | [v] =>
+    if v = "Mmss" ∨ v = "Mmfs" ∨ v = "Mstr" then
+      -- `StatsOn`, `default:` branch: the attribute is replaced by fresh statistics of the record itself
+      let r : Rec := { id := "a", seq := [97], cnt := none, attrs := [("x", "v")], merged := [] }
+      pure (showRecs "U" ["x"] ((mergeClassD "NA" (optionStatOn [] ["x"]) [r]).toList))
+    else if v = "Mmis" then pure "panic"
+    else
+      let x ← parseVal v
+      let g := getIntAttribute x
+      pure s!"count={countOfVal x} w={g.1},{if g.2.1 then 1 else 0} after={showVal g.2.2}"
+  | _ => none
 
 def run (line : String) : String :=
   match words line with
@@ -291,6 +376,8 @@ def run (line : String) : String :=
       pure (if r1 = r2 then r2 else r2 ++ " NOT-IDEMPOTENT")
     r.getD "bad-op"
   | "big" :: rest => bigRun rest
+  | "glue" :: rest => (glueRun rest).getD "bad-op"
+  | "gattr" :: rest => (gattrRun rest).getD "bad-op"
   | _ => "bad-op"
 
 end ObiVerif.Driver.C06
